@@ -68,6 +68,13 @@ def jobs(tier):
     out.append(("v1.flat2.flat.partial-decoy", "job", dict(version=1, shape="flat2", P=16384, K=2, layout="flat", decoy="partial")))
     out.append(("v1.flat2.flat.cli", "job", dict(version=1, shape="flat2", P=16384, K=2, layout="flat", decoy="none", via="cli")))
     out.append(("v1.batch2", "job_batch", dict()))
+    for version in (1, 2, 3):
+        for layout in ("prefix", "nested", "repeat", "spelled"):
+            for via in ("assembler", "cli"):
+                if q and (version + len(layout) + (via == "cli")) % 2 and layout != "prefix":
+                    continue
+                out.append(("v%d.flat2.%s.%s" % (version, layout, via), "job",
+                            dict(version=version, shape="flat2", P=16384, K=1, layout=layout, decoy="none", via=via)))
     return out
 
 
